@@ -22,6 +22,9 @@ pub use open_hypergraph::*;
 #[cfg(test)]
 mod tests;
 
+#[cfg(feature = "verif-hooks")]
+pub mod verif_hooks;
+
 pub mod vec {
     //! Type alises for strict Open Hypergraphs using the [`VecKind`] array backend.
     pub use crate::array::vec::*;
